@@ -285,8 +285,12 @@ class QR {
                 // writing the matrix A^T as A^T = QR and solving for x as
                 // x = Q^-T R^-T f = Q R^-T f.
                 if (!computed) {
-                    for(int i = 0, n = cols * rows; i < n; ++i)
-                        A[i] = math::adjoint(A[i]);
+                    // Conjugate the elements of the matrix itself: with
+                    // general strides (a sub-matrix view) they are not the
+                    // first rows * cols elements of the array.
+                    for(int i = 0, ia = 0; i < rows; ++i, ia += row_stride)
+                        for(int j = 0, ja = 0; j < cols; ++j, ja += col_stride)
+                            A[ia + ja] = math::adjoint(A[ia + ja]);
                     compute(cols, rows, col_stride, row_stride, A);
                 }
 
